@@ -5,6 +5,7 @@ tier=$1; shift
 ids="$*"; [ -z "$ids" ] && ids=$(ls /verif/seeded | sed 's/-.*//' | sort -u)
 for id in $ids; do for d in /verif/seeded/$id-*; do
   [ -f $d/patch.diff ] || continue
+  if python3 -c "import json,sys;sys.exit(0 if json.load(open('$d/meta.json')).get('detected', True) is False else 1)" 2>/dev/null; then echo "SEEDED $(basename $d) recorded as NOT DETECTED (see meta.json)"; continue; fi
   # (a defect may be filed under one property and be visible to the check of another: meta.json "detected_by")
   chk=$(python3 -c "import json;print(' '.join(json.load(open('$d/meta.json')).get('detected_by',['$id'])))" 2>/dev/null || echo $id)
   rc=0; out=""; t0=$(date +%s)
